@@ -110,6 +110,7 @@ static void out_meta(const char *k, const varintRLEMeta *m) {
 
 static int sample_index(size_t i, size_t count) {
     if (count <= 96) return 1;
+    if (count > 10000) return i < 3 || i + 3 >= count || i % (count / 6 + 1) == 0;
     if (i < 8 || i + 8 >= count) return 1;
     return i % (count / 16 + 1) == 0;
 }
@@ -214,6 +215,25 @@ static void h_rle_cap(const vcase *c) {
     gpage_free(&in);
     free(enc);
     free(v);
+}
+
+/* rle_hostile HEX cap : varintRLEDecode on arbitrary run bytes whose declared run
+ * lengths add up to at least cap (so the decoder stops inside the input) */
+static void h_rle_hostile(const vcase *c) {
+    size_t len;
+    uint8_t *b = arg_hex(c, 0, &len);
+    size_t cap = (size_t)arg_u64(c, 1);
+    gpage in = gpage_new(b, len);
+    gbuf og = gbuf_new(cap * 8, 0);
+    size_t ret = varintRLEDecode(in.p, (uint64_t *)og.p, cap);
+    out_u64("ret", ret);
+    out_str("guard", gbuf_guard(&og));
+    size_t t = touched_elems(&og, cap);
+    out_u64("touched", t);
+    out_list("out", (uint64_t *)og.p, t);
+    gbuf_free(&og);
+    gpage_free(&in);
+    free(b);
 }
 
 /* rle_rc HEX : varintRLEGetRunCount on an exact-size guard-paged input */
@@ -381,7 +401,7 @@ static void h_dict_dec(const vcase *c) {
 }
 
 static const vreg tab[] = {
-    {"rle_enc", h_rle_enc},   {"rle_cap", h_rle_cap},   {"rle_rc", h_rle_rc},
+    {"rle_enc", h_rle_enc},   {"rle_cap", h_rle_cap},   {"rle_rc", h_rle_rc}, {"rle_hostile", h_rle_hostile},
     {"dict_enc", h_dict_enc}, {"dict_with", h_dict_with}, {"dict_cap", h_dict_cap},
     {"dict_dec", h_dict_dec},
 };
